@@ -100,6 +100,48 @@ pub proof fn use_algebra<C: Ciphersuite>()
     assert forall|e: GroupError, r: Error<C>| #[trigger] vstd::std_specs::control_flow::spec_from::<Error<C>, GroupError>(e, r) implies r == Error::<C>::GroupError(e) by { ax_question_mark_group::<C>(e, r); }
 }
 
+// "Second opinion" facts (driver: only used to RE-CHECK an obligation that failed): the ring/module laws of T3 as quantified facts, so that a
+// body that computes the same value in another order of operands (a + b vs b + a, (a*b)*c vs a*(b*c), distributed products) is not
+// reported as a violation merely because the first proof attempt has no AC reasoning.  Every conjunct is an axiom of prelude/traits.rs or a
+// lemma of lemmas/vgroup.rs instantiated for all arguments: adding them cannot make a false obligation pass.
+pub proof fn use_ac<C: Ciphersuite>()
+    ensures
+        forall|a: Scalar<C>, b: Scalar<C>| #[trigger] FF::<C>::s_add(a, b) == FF::<C>::s_add(b, a),
+        forall|a: Scalar<C>, b: Scalar<C>| #[trigger] FF::<C>::s_mul(a, b) == FF::<C>::s_mul(b, a),
+        forall|a: Scalar<C>, b: Scalar<C>, c: Scalar<C>| #[trigger] FF::<C>::s_add(FF::<C>::s_add(a, b), c) == FF::<C>::s_add(a, FF::<C>::s_add(b, c)),
+        forall|a: Scalar<C>, b: Scalar<C>, c: Scalar<C>| #[trigger] FF::<C>::s_mul(FF::<C>::s_mul(a, b), c) == FF::<C>::s_mul(a, FF::<C>::s_mul(b, c)),
+        forall|a: Scalar<C>, b: Scalar<C>, c: Scalar<C>| #[trigger] FF::<C>::s_mul(a, FF::<C>::s_add(b, c)) == FF::<C>::s_add(FF::<C>::s_mul(a, b), FF::<C>::s_mul(a, c)),
+        forall|a: Scalar<C>| #[trigger] FF::<C>::s_add(a, FF::<C>::s_zero()) == a,
+        forall|a: Scalar<C>| #[trigger] FF::<C>::s_mul(a, FF::<C>::s_one()) == a,
+        forall|a: Scalar<C>| #[trigger] FF::<C>::s_add(a, FF::<C>::s_neg(a)) == FF::<C>::s_zero(),
+        forall|a: Element<C>, b: Element<C>| #[trigger] GG::<C>::e_add(a, b) == GG::<C>::e_add(b, a),
+        forall|a: Element<C>, b: Element<C>, c: Element<C>| #[trigger] GG::<C>::e_add(GG::<C>::e_add(a, b), c) == GG::<C>::e_add(a, GG::<C>::e_add(b, c)),
+        forall|a: Element<C>| #[trigger] GG::<C>::e_add(a, GG::<C>::e_id()) == a,
+        forall|a: Element<C>| #[trigger] GG::<C>::e_add(a, GG::<C>::e_neg(a)) == GG::<C>::e_id(),
+        forall|a: Element<C>, j: Scalar<C>, k: Scalar<C>| #[trigger] GG::<C>::e_smul(a, FF::<C>::s_add(j, k)) == GG::<C>::e_add(GG::<C>::e_smul(a, j), GG::<C>::e_smul(a, k)),
+        forall|a: Element<C>, b: Element<C>, k: Scalar<C>| #[trigger] GG::<C>::e_smul(GG::<C>::e_add(a, b), k) == GG::<C>::e_add(GG::<C>::e_smul(a, k), GG::<C>::e_smul(b, k)),
+        forall|a: Element<C>, j: Scalar<C>, k: Scalar<C>| #[trigger] GG::<C>::e_smul(GG::<C>::e_smul(a, j), k) == GG::<C>::e_smul(a, FF::<C>::s_mul(j, k)),
+        forall|a: Element<C>| #[trigger] GG::<C>::e_smul(a, FF::<C>::s_one()) == a,
+{
+    assert forall|a: Scalar<C>, b: Scalar<C>| #[trigger] FF::<C>::s_add(a, b) == FF::<C>::s_add(b, a) by { FF::<C>::ax_add_comm(a, b); }
+    assert forall|a: Scalar<C>, b: Scalar<C>| #[trigger] FF::<C>::s_mul(a, b) == FF::<C>::s_mul(b, a) by { FF::<C>::ax_mul_comm(a, b); }
+    assert forall|a: Scalar<C>, b: Scalar<C>, c: Scalar<C>| #[trigger] FF::<C>::s_add(FF::<C>::s_add(a, b), c) == FF::<C>::s_add(a, FF::<C>::s_add(b, c)) by { FF::<C>::ax_add_assoc(a, b, c); }
+    assert forall|a: Scalar<C>, b: Scalar<C>, c: Scalar<C>| #[trigger] FF::<C>::s_mul(FF::<C>::s_mul(a, b), c) == FF::<C>::s_mul(a, FF::<C>::s_mul(b, c)) by { FF::<C>::ax_mul_assoc(a, b, c); }
+    assert forall|a: Scalar<C>, b: Scalar<C>, c: Scalar<C>| #[trigger] FF::<C>::s_mul(a, FF::<C>::s_add(b, c)) == FF::<C>::s_add(FF::<C>::s_mul(a, b), FF::<C>::s_mul(a, c)) by { FF::<C>::ax_distrib(a, b, c); }
+    assert forall|a: Scalar<C>| #[trigger] FF::<C>::s_add(a, FF::<C>::s_zero()) == a by { FF::<C>::ax_add_zero(a); }
+    assert forall|a: Scalar<C>| #[trigger] FF::<C>::s_mul(a, FF::<C>::s_one()) == a by { FF::<C>::ax_mul_one(a); }
+    assert forall|a: Scalar<C>| #[trigger] FF::<C>::s_add(a, FF::<C>::s_neg(a)) == FF::<C>::s_zero() by { FF::<C>::ax_add_neg(a); }
+    assert forall|a: Element<C>, b: Element<C>| #[trigger] GG::<C>::e_add(a, b) == GG::<C>::e_add(b, a) by { GG::<C>::ax_eadd_comm(a, b); }
+    assert forall|a: Element<C>, b: Element<C>, c: Element<C>| #[trigger] GG::<C>::e_add(GG::<C>::e_add(a, b), c) == GG::<C>::e_add(a, GG::<C>::e_add(b, c)) by { GG::<C>::ax_eadd_assoc(a, b, c); }
+    assert forall|a: Element<C>| #[trigger] GG::<C>::e_add(a, GG::<C>::e_id()) == a by { GG::<C>::ax_eadd_id(a); }
+    assert forall|a: Element<C>| #[trigger] GG::<C>::e_add(a, GG::<C>::e_neg(a)) == GG::<C>::e_id() by { GG::<C>::ax_eadd_neg(a); }
+    assert forall|a: Element<C>, j: Scalar<C>, k: Scalar<C>| #[trigger] GG::<C>::e_smul(a, FF::<C>::s_add(j, k)) == GG::<C>::e_add(GG::<C>::e_smul(a, j), GG::<C>::e_smul(a, k)) by { GG::<C>::ax_smul_add(a, j, k); }
+    assert forall|a: Element<C>, b: Element<C>, k: Scalar<C>| #[trigger] GG::<C>::e_smul(GG::<C>::e_add(a, b), k) == GG::<C>::e_add(GG::<C>::e_smul(a, k), GG::<C>::e_smul(b, k)) by { GG::<C>::ax_smul_eadd(a, b, k); }
+    assert forall|a: Element<C>, j: Scalar<C>, k: Scalar<C>| #[trigger] GG::<C>::e_smul(GG::<C>::e_smul(a, j), k) == GG::<C>::e_smul(a, FF::<C>::s_mul(j, k)) by { GG::<C>::ax_smul_mul(a, j, k); }
+    assert forall|a: Element<C>| #[trigger] GG::<C>::e_smul(a, FF::<C>::s_one()) == a by { GG::<C>::ax_smul_one(a); }
+}
+
+
 // T6: the `?` operator converts the error with `From::from` (Rust reference); vstd models the conversion by the uninterpreted
 // relation `spec_from`.  For the two `#[from]` conversions of `Error<C>` (expanded by rule E2) it is the generated From impl.
 pub axiom fn ax_question_mark_field<C: Ciphersuite>(e: FieldError, r: Error<C>)
